@@ -336,3 +336,5 @@ _patch("C17", "text", "Engine fwdtext ties that model to the code:",
        "hardware addresses in three notations, interface names, padded and multi-'=' values, compares ID and printed form with the extracted "
        "parser (package net as an oracle taken from the implementation's own classification of that value) and checks that String() set again "
        "gives the same line and replaces the rule it came from. Engine fwdtext ties that model to the code:")
+_patch("C05", "text", "Mode tcpstall:", "C05_stream_decodes: for every sequence of replies of 1..65535 bytes written each as one whole frame, a client "
+       "reading length-then-body decodes exactly that sequence and is left with exactly what follows (a frame cut short is refuted by example). Mode tcpstall:")
